@@ -291,7 +291,6 @@ def cases(tier):
     add("gd-trace", dimred='trace')
     add("gd-logdet1", dimred='logdet1', backends=('cvxpy',))
     if tier == 'thorough':
-        add("gd-gram3", check_gram=True, backends=('cvxpy',))
         add("quad", fclass='quad')
         add("gd2-cons", steps=['grad', 'grad'], cons=['le', 'eq'])
         add("composite", second='convex', steps=['grad', 'prox'])
@@ -309,5 +308,6 @@ def main(tier, only=None):
                      "solver = KKT contract stub incl. complementary slackness for claim (d)",
                      "(c) is decided on the no-clipping branch; with clipping the gap is bounded by the clipped mass "
                      "(not quantified here)"],
-        bounds=dict(gram_factorisation_n=2 if tier == 'quick' else 3, models=len(cs),
-                    outside="Gram factorisation lemma for n > 3; solver tolerance"))
+        bounds=dict(gram_factorisation_n=2, models=len(cs),
+                    outside="Gram factorisation lemma for n >= 3 (z3 did not finish within 15 min in this harness); solver "
+                            "tolerance"))
